@@ -168,6 +168,13 @@ def gen_unit(rng, uid, opts):
                     pool = [("_", "struct{}", ""), ("_", "int", ""), ("skip", "string", 'wire:"-"'),
                             ("skip2", "*int", 'json:"a" wire:"-"'), ("_", "string", 'json:"b"')]
                     st["extra"] = rng.sample(pool, rng.randint(1, 3))
+                    if rng.random() < 0.5:
+                        # blank first, prevented next: both in front of the real fields
+                        st["extra"].sort(key=lambda e: (e[0] != "_", "wire:" not in e[2]))
+                        st["extra_pos"] = [0] * len(st["extra"])
+                        st["extra_pos"] = list(range(len(st["extra"])))
+                    else:
+                        st["extra_pos"] = [rng.randint(0, len(deps)) + n for n in range(len(st["extra"]))]
                 add_item({"kind": "struct", "outs": [("v", i), ("p", i)], "deps": deps, "all": allf,
                           "struct": i, "pkg": st["pkg"]})
             elif x < p_fn + 0.27:
@@ -473,6 +480,7 @@ def materialise(prog):
     for pkg in prog.pkgs:
         body, used = [], set()
         inj_body, inj_used = [], set()
+        set_decls, decoys, refs, decoy_seen = [], [], [], set()
         pdir, pname = prog.pkgmap[pkg]["dir"], prog.pkgmap[pkg]["name"]
         if pkg == "app":
             body += list(prog.extra_decls)
@@ -489,10 +497,13 @@ def materialise(prog):
                 if st["pkg"] != pkg:
                     continue
                 lines = ["type %s struct {" % st["name"], "\tID int `wire:\"-\"`"]
-                for fname, td in st["fields"]:
-                    lines.append("\t%s %s" % (fname, T(u, td)))
-                for fname, gt, tag in st["extra"]:
-                    lines.append("\t%s %s%s" % (fname, gt, (" `%s`" % tag) if tag else ""))
+                flines = ["\t%s %s" % (fname, T(u, td)) for fname, td in st["fields"]]
+                # fields Wire must leave alone sit before, between and after the real ones (the position is fixed
+                # per struct: a blank field first, then a prevented one, then a real one is the nasty order)
+                for n, (fname, gt, tag) in enumerate(st["extra"]):
+                    pos = (st.get("extra_pos") or [len(flines)] * len(st["extra"]))[n]
+                    flines.insert(min(pos, len(flines)), "\t%s %s%s" % (fname, gt, (" `%s`" % tag) if tag else ""))
+                lines += flines
                 lines.append("}")
                 body.append("\n".join(lines))
                 body.append('func (x %s) WDesc() string { return fmt.Sprintf("%s#%%d{%%s}", x.ID, wtrace.Fields(x)) }' % (st["name"], st["name"]))
@@ -571,9 +582,25 @@ def materialise(prog):
                 # provider sets of library packages live in ordinary files; in the injector package
                 # they may sit next to the injectors (and are then copied into wire_gen.go)
                 if pkg != "app" or s["id"] % 2 == 0:
-                    body.append("var %s = wire.NewSet(%s)" % (s["var"], ", ".join(set_args(u, s, pkg, lambda td: T(u, td, used), used))))
+                    set_decls.append((s["var"], "wire.NewSet(%s)" % ", ".join(set_args(u, s, pkg, lambda td: T(u, td, used), used))))
+                    # a decoy: a function-local variable of the same name holding another set (an alternative
+                    # provider of the same type) must never be mistaken for the package-level one
+                    fn_items = [u.items[n] for n in s["items"] if u.items[n]["kind"] == "func" and u.items[n].get("pkg") == pkg
+                                and u.items[n]["outs"][0][0] in ("v", "p")]
+                    if fn_items and (s["id"] + u.uid) % 3 != 0:
+                        it = fn_items[0]
+                        alt = "Alt%s" % it.get("fn", "Prov%d" % it["id"])
+                        if alt not in decoy_seen:
+                            decoy_seen.add(alt)
+                            o = it["outs"][0]
+                            zero = {"v": T(u, ("v", o[1])) + "{}", "p": "nil"}[o[0]]
+                            decoys.append('func %s() %s {\n\twtrace.Log("call %s.%s() -> #0")\n\treturn %s\n}' % (alt, T(u, o), pkg, alt, zero))
+                        decoys.append("func decoy%s%d() {\n\tvar %s = wire.NewSet(%s)\n\t_ = %s\n\t%s := wire.NewSet()\n\t_ = %s\n}"
+                                      % (s["var"], u.uid, s["var"], alt, s["var"], alt, alt))
                 else:
                     inj_body.append("var %s = wire.NewSet(%s)" % (s["var"], ", ".join(set_args(u, s, pkg, lambda td: T(u, td, inj_used), inj_used))))
+                    # an ordinary file of the package mentions the set too: the copy in wire_gen.go must exist
+                    refs.append("var _ = %s" % s["var"])
             if u.inj["pkg"] == pkg:
                 s = u.sets[-1]
                 inj = u.inj
@@ -607,6 +634,17 @@ def materialise(prog):
                 else:
                     fbody = "\t%s\n\treturn %s" % (call, ", ".join(rets))
                 inj_body.append("%sfunc %s(%s) %s {\n%s\n}" % (doc, inj["name"], ", ".join(params), rsig, fbody))
+        # set variables: singly, or two to a `var A, B = …, …` specification
+        k = 0
+        while k < len(set_decls):
+            if k + 1 < len(set_decls) and (len(set_decls[k][0]) + k) % 3 == 0:
+                body.append("var %s, %s = %s, %s" % (set_decls[k][0], set_decls[k + 1][0], set_decls[k][1], set_decls[k + 1][1]))
+                k += 2
+            else:
+                body.append("var %s = %s" % set_decls[k])
+                k += 1
+        body += decoys
+        body += refs
         if body:
             files["%s/%s.go" % (pdir, pkg)] = "package %s\n\n%s\n%s\n" % (
                 pname, imports_for(prog, used, pkg, ["fmt", "github.com/google/wire", MOD + "/wtrace"]),
@@ -849,6 +887,90 @@ def plant(rng, u, kind):
         u.items.append(it)
         build["items"].append(len(u.items) - 1)
         return "second value for %s" % (it["outs"],)
+    if kind == "dupset":
+        # a set the Build already contains (through a set that imports it) is listed once more, after its superset
+        cands = []
+        for k in build["imports"]:
+            for j in u.sets[k]["imports"]:
+                if u.sets[j]["items"] and j not in build["imports"]:
+                    cands.append((k, j))
+        if getattr(u, "shadow", False) or any(getattr(o, "twin_of", None) is u for o in u.prog.units):
+            return None
+        if not cands:
+            # make the shape: split a leaf set off a set the Build imports
+            pool = [k for k in build["imports"] if [n for n in u.sets[k]["items"] if u.items[n]["kind"] != "bind"]]
+            if not pool:
+                return None
+            k = rng.choice(pool)
+            n = rng.choice([n for n in u.sets[k]["items"] if u.items[n]["kind"] != "bind"])
+            u.sets[k]["items"].remove(n)
+            sid = max(t["id"] for t in u.sets) + 1
+            leaf = {"id": sid, "items": [n], "imports": [], "build": False, "pkg": u.sets[k]["pkg"], "var": "Set%d" % sid}
+            # the leaf must come before the set that imports it: renumber
+            for t in u.sets:
+                t["imports"] = [i + 1 if i >= k else i for i in t["imports"]]
+            u.sets.insert(k, leaf)
+            u.sets[k + 1]["imports"].append(k)
+            cands = [(k + 1, k)]
+        k, j = rng.choice(cands)
+        build["imports"].append(j)
+        build.pop("order", None)
+        return "set %s is reached twice: through %s and directly" % (u.sets[j]["var"], u.sets[k]["var"])
+    if kind == "cycle2":
+        # two sets that are acyclic each (each needs what the other provides) are merged by a set that has no item of
+        # its own, and the Build lists nothing but sets either; the injector does not need the cyclic part
+        if getattr(u, "shadow", False) or any(getattr(o, "twin_of", None) is u for o in u.prog.units):
+            return None
+        ix = len(u.structs)
+        for n in range(2):
+            u.structs.append({"name": sname(u, ix + n), "pkg": "app", "fields": [], "extra": [], "ptrrecv": False})
+        base = max([it["id"] for it in u.items] + [u.uid * 1000]) + 700
+        for n, (o, d) in enumerate([(ix, ix + 1), (ix + 1, ix)]):
+            u.items.append({"kind": "func", "outs": [("v", o)], "deps": [("v", d)], "cleanup": False, "err": False,
+                            "variadic": False, "pkg": "app", "id": base + n})
+            u.src[("v", o)] = len(u.items) - 1
+        fa, fb = len(u.items) - 2, len(u.items) - 1
+        sid = max(t["id"] for t in u.sets) + 1
+        mk = lambda k, items, imports: {"id": sid + k, "items": items, "imports": imports, "build": False, "pkg": "app",
+                                         "var": "Set%d" % (sid + k)}
+        n0 = len(u.sets) - 1
+        new = [mk(0, [fa], []), mk(1, [fb], []), mk(2, [], [n0, n0 + 1]), mk(3, list(build["items"]), [])]
+        u.sets[n0:n0] = new          # the Build set stays last; nothing imports it
+        build["items"] = []
+        build["imports"] = list(build["imports"]) + [n0 + 3, n0 + 2]
+        build.pop("order", None)
+        return "cycle between %s and %s spread over two sets merged by a set of sets" % (u.structs[ix]["name"], u.structs[ix + 1]["name"])
+    if kind == "unusedtwin":
+        # a superfluous provider function whose printed name (package name + function name) equals that of a provider
+        # the injector does use: same-named packages, same-named functions
+        pm = u.prog.pkgmap
+        if pm["liba"]["name"] != pm["libb"]["name"] or getattr(u, "shadow", False):
+            return None
+        names = {p: {it.get("fn", "Prov%d" % it["id"]) for o in u.prog.units for it in o.items if it.get("pkg") == p and it["kind"] == "func"}
+                 for p in ("liba", "libb")}
+        needed_types = set()
+        todo = [u.inj["out"]]
+        while todo:
+            t = todo.pop()
+            if t in needed_types or t not in u.src:
+                continue
+            needed_types.add(t)
+            todo += u.items[u.src[t]]["deps"]
+        cands = [n for n in build["items"] if u.items[n]["kind"] == "func" and u.items[n].get("pkg") in ("liba", "libb")
+                 and u.items[n]["outs"][0] in needed_types
+                 and u.items[n].get("fn", "Prov%d" % u.items[n]["id"]) not in names[{"liba": "libb", "libb": "liba"}[u.items[n]["pkg"]]]]
+        if not cands:
+            return None
+        a = u.items[rng.choice(cands)]
+        other = {"liba": "libb", "libb": "liba"}[a["pkg"]]
+        iz = len(u.structs)
+        u.structs.append({"name": sname(u, iz), "pkg": other, "fields": [], "extra": [], "ptrrecv": False})
+        u.items.append({"kind": "func", "outs": [("v", iz)], "deps": [], "cleanup": False, "err": False, "variadic": False,
+                        "pkg": other, "id": max(it["id"] for it in u.items) + 300, "fn": a.get("fn", "Prov%d" % a["id"])})
+        u.src[("v", iz)] = len(u.items) - 1
+        build["items"].append(len(u.items) - 1)
+        build.pop("order", None)
+        return "superfluous provider %s of the other package called %s" % (u.items[-1]["fn"], pm[other]["name"])
     if kind == "unused":
         i = len(u.structs)
         u.structs.append({"name": sname(u, i), "pkg": "app", "fields": [], "extra": [], "ptrrecv": False})
